@@ -20,6 +20,10 @@ def parse_act(tok):
         rev = k == "gather"
         mode = "a" if p[1] == "a" else ("p" if p[1] == "p" and not rev else "d")
         return ("wake", mode, rev, ids(p[2]) if len(p) == 3 else [], None)
+    if k == "awaits" and len(p) == 3:
+        # co_await of a suspend point that holds the awaiting coroutine's own handle (co_await self()) behind the handles of
+        # the first id list, before those of the second
+        return ("awaits", None, False, ids(p[1]), ids(p[2]))
     if k == "detach" and len(p) == 3:
         return ("wake", "a" if p[1] == "a" else ("p" if p[1] == "p" else "d"), False, ids(p[2]), None)
     if len(p) == 1 and k in ("parkp", "hop", "hopc", "fwait"):
@@ -74,6 +78,12 @@ class TraceChecker:
         self.queued_resumes = 0
         self.nested = 0
         self.gen_accesses = 0
+        self.selfawaits = 0
+        self.maxq = 0         # most coroutines waiting in the ready queue at the same time
+        self.maxq_draining = 0  # the same, counted only at appends made after handles had been taken from a queue that has not
+                              # been empty since (the queue grows while its head has advanced)
+        self.dq = 0           # handles taken from the queue since it was last empty
+        self.maxsp = 0        # most handles in one suspend point
 
     def flag(self, cat, text):
         self.msgs.append("%s: %s" % (cat, text))
@@ -93,6 +103,7 @@ class TraceChecker:
             if self.st(t) in ("fresh", "parked"):
                 self.status[t] = "queued"
                 hs.append(t)
+        self.maxsp = max(self.maxsp, len(hs))
         # create_suspend_point keeps the order in which the coroutines were made ready (/repo fix 34c6158; the pinned code reversed it)
         return hs
 
@@ -102,6 +113,9 @@ class TraceChecker:
             self.queue.append(h)
             self.qseq.append(self.nseq)
             self.nseq += 1
+            self.maxq = max(self.maxq, len(self.queue))
+            if self.dq:
+                self.maxq_draining = max(self.maxq_draining, len(self.queue))
 
     # -- one event --------------------------------------------------------------------------------------
     def event(self, c, k, depth):
@@ -137,6 +151,7 @@ class TraceChecker:
                     i = self.queue.index(c)
                     del self.queue[i]
                     del self.qseq[i]
+                    self.dq = self.dq + 1 if self.queue else 0
                 self.queued_resumes += 1
                 self.resumes[c] = self.resumes.get(c, 0) + 1
             elif s == "direct":
@@ -187,6 +202,23 @@ class TraceChecker:
             else:
                 self.enqueue(hs)
                 self.must_continue = (c, "it only dropped a suspend point")
+        elif kind == "awaits":
+            # the awaited suspend point is  <pre handles> <own handle> <post handles>: the last one continues by symmetric
+            # transfer, the others wait in the ready queue in this order; the awaiting coroutine handed in ONE handle of itself:
+            # it is resumed exactly once - at once when its handle is the last one (and then it is not queued)
+            pre = self.effective(ids, False)
+            post = self.effective(d, False)
+            self.selfawaits += 1
+            if post:
+                out = post[-1]
+                self.enqueue(pre + [c] + post[:-1])
+                self.status[out] = "direct"
+                self.runner = None
+            else:
+                self.enqueue(pre)
+                self.status[c] = "running"
+                self.resumes[c] = self.resumes.get(c, 0) + 1
+                self.must_continue = (c, "its own handle was the last one of the suspend point it awaits: the transfer goes to itself")
         elif kind in ("park", "parkn"):
             self.status[c] = "parked"
             self.runner = None
@@ -682,9 +714,303 @@ class ExecSuite(Suite):
         lines.append("end")
         return {"id": 0, "lines": lines}
 
+    # ---- wide / deep histories -------------------------------------------------------------------------
+    # The programs above never hold more than a handful of ready coroutines at once. The statement quantifies over all N and
+    # step counts: the families below make tens to hundreds (thorough: about a thousand) coroutines ready AT THE SAME TIME on
+    # one thread, with the ready queue growing while it is being drained (every coroutine that runs readies several others),
+    # with widths around powers of two +-1 (where containers grow / wrap), in repeated fill/drain cycles of different widths,
+    # with one suspend point holding many handles (dropped, awaited, collected by create_suspend_point) and with deep
+    # chains of nested start() / co_await async. Same grammar, same model, same oracle.
+    WIDTHS_QUICK = [9, 15, 16, 17, 31, 32, 33, 34, 40, 47, 63, 64, 65, 66, 80, 96, 127, 128, 129, 130]
+    WIDTHS_MORE = [191, 255, 256, 257, 258, 300, 383, 511, 512, 513, 520]
+
+    @staticmethod
+    def _ids(xs):
+        return ",".join(map(str, xs))
+
+    def _ready_many(self, rng, c, ids, allow_await=False):
+        """script lines of coroutine c that make `ids` ready (suspend points dropped): one by one, in one suspend point, through
+        create_suspend_point, or in chunks"""
+        ids = list(ids)
+        if not ids:
+            return []
+        how = rng.choice(["each", "each", "bulk", "gather", "chunks", "chunks", "await" if allow_await else "bulk"])
+        if how == "each":
+            return ["a %d detach:%s:%d" % (c, rng.choice("dddr"), i) for i in ids]
+        if how == "bulk":
+            return ["a %d wake:%s:%s" % (c, rng.choice("dddrx"), self._ids(ids))]
+        if how == "gather":
+            return ["a %d gather:d:%s" % (c, self._ids(ids))]
+        if how == "await":
+            return ["a %d %s:a:%s" % (c, rng.choice(["wake", "wake", "gather"]), self._ids(ids))]
+        out, i = [], 0
+        while i < len(ids):
+            k = rng.randint(1, 9)
+            out.append("a %d %s:d:%s" % (c, rng.choice(["wake", "wake", "wake", "gather"]), self._ids(ids[i:i + k])))
+            i += k
+        return out
+
+    def _enter_main(self, rng, root=0):
+        """how ordinary code enters the program"""
+        r = rng.random()
+        if r < 0.55:
+            return ["m %s:%d" % (rng.choice(["start", "start", "startc", "spawn"]), root)]
+        if r < 0.80:
+            return ["m detach:%s:%d" % (rng.choice("ddrx"), root)]
+        return ["m enter", "m %s:%d" % (rng.choice(["start", "detach:d", "wake:d"]), root), "m " + rng.choice(["leave", "leavex"])]
+
+    def wide_fanout(self, rng, w):
+        """the root makes w children ready; every child, when it gets its turn, makes 0-3 more coroutines ready and pauses /
+        parks / finishes: the number of ready coroutines grows while the head of the queue advances"""
+        lines = []
+        kids = list(range(1, w + 1))
+        nxt = w + 1
+        lines += self._ready_many(rng, 0, kids)
+        lines.append("a 0 %s" % rng.choice(["end", "end", "pause", "park"]))
+        fan = rng.choice([[2], [2], [1, 2], [0, 1, 2, 3], [1, 2, 3], [3]])
+        tails = rng.choice([["pause"], ["pause"], ["pause", "end"], ["pause", "swap", "park", "end", "parkn"]])
+        for c in kids:
+            f = rng.choice(fan)
+            g = list(range(nxt, nxt + f))
+            nxt += f
+            lines += self._ready_many(rng, c, g, allow_await=rng.random() < 0.3)
+            t = rng.choice(tails)
+            if t != "end":
+                lines.append("a %d %s" % (c, t))
+                if rng.random() < 0.2:
+                    lines.append("a %d pause" % c)
+            lines.append("a %d end" % c)
+            for x in g:
+                if rng.random() < 0.15:
+                    lines.append("a %d %s" % (x, rng.choice(["pause", "park"])))
+        lines += self._enter_main(rng)
+        lines.append("m wake:d:%s" % self._ids(range(nxt)))      # whoever parked
+        return lines
+
+    def wide_tree(self, rng, w):
+        """breadth-first tree: every node readies its b children, then pauses / finishes; ~w nodes"""
+        b = rng.choice([2, 2, 3, 4])
+        lines = []
+        for c in range(w):
+            g = [k for k in range(b * c + 1, b * c + b + 1) if k < w]
+            lines += self._ready_many(rng, c, g, allow_await=rng.random() < 0.1)
+            t = rng.choice(["pause", "end", "end", "park", "swap"])
+            if t != "end":
+                lines.append("a %d %s" % (c, t))
+            lines.append("a %d end" % c)
+        lines += self._enter_main(rng)
+        lines.append("m wake:%s:%s" % (rng.choice("ddr"), self._ids(range(w))))
+        return lines
+
+    def wide_cycles(self, rng, w):
+        """repeated fill/drain cycles of different widths: workers park again and again, a pump coroutine (or ordinary code
+        inside an install_queue_and_call block) wakes a different number of them in every round"""
+        rounds = rng.randint(2, 6)
+        workers = list(range(1, w + 1))
+        lines = []
+        for c in workers:
+            for _ in range(rounds):
+                lines.append("a %d %s" % (c, rng.choice(["park", "park", "park", "parkn"])))
+                if rng.random() < 0.2:
+                    lines.append("a %d pause" % c)
+            lines.append("a %d end" % c)
+        sizes = [rng.choice([w, w, max(1, w // 2), max(1, w // 3), max(1, w - 1), rng.randint(1, w)]) for _ in range(rounds + 1)]
+        by_main = rng.random() < 0.4
+        if by_main:
+            for k in sizes:
+                sub = workers[:k] if rng.random() < 0.5 else sorted(rng.sample(workers, k))
+                lines += ["m enter", "m %s:d:%s" % (rng.choice(["wake", "wake", "gather"]), self._ids(sub)), "m leave"]
+        else:
+            for k in sizes:
+                sub = workers[:k] if rng.random() < 0.5 else sorted(rng.sample(workers, k))
+                lines += self._ready_many(rng, 0, sub)
+                lines.append("a 0 %s" % rng.choice(["pause", "pause", "swap"]))
+            lines.append("a 0 end")
+            lines += self._enter_main(rng)
+        lines.append("m wake:d:%s" % self._ids(range(w + 1)))
+        lines.append("m wake:d:%s" % self._ids(range(w + 1)))
+        return lines
+
+    def wide_ring(self, rng, w):
+        """cooperative multitasking at width w: w tasks pause j times each (the queue stays full, its head rotates); one of
+        them fans out in the middle"""
+        lines = []
+        tasks = list(range(1, w + 1))
+        lines += self._ready_many(rng, 0, tasks)
+        lines.append("a 0 %s" % rng.choice(["end", "pause", "park"]))
+        j = rng.randint(1, 3)
+        burst = rng.sample(tasks, rng.randint(1, 3))
+        nxt = w + 1
+        for c in tasks:
+            for r in range(j):
+                if c in burst and r == j // 2:
+                    e = rng.choice([w // 2 + 1, w, w + 1, 5])
+                    lines += self._ready_many(rng, c, range(nxt, nxt + e))
+                    nxt += e
+                lines.append("a %d %s" % (c, rng.choice(["pause", "pause", "pause", "swap"])))
+            lines.append("a %d end" % c)
+        lines += self._enter_main(rng)
+        lines.append("m wake:d:0")
+        return lines
+
+    def wide_random(self, rng, w):
+        """random programs over many coroutines with short scripts, wide wakes and fan-out"""
+        n = w + rng.randint(0, w // 2 + 1)
+        pool = list(range(1, n))
+        lines = []
+        first = pool[:max(1, w // 2)]
+        del pool[:len(first)]
+        lines += self._ready_many(rng, 0, first)
+        lines.append("a 0 %s" % rng.choice(["pause", "end", "park"]))
+        for c in range(1, n):
+            for _ in range(rng.choice([0, 1, 1, 2, 2, 3, 4])):
+                r = rng.random()
+                if r < 0.35 and pool:
+                    k = min(len(pool), rng.choice([1, 2, 2, 3]))
+                    g = pool[:k]
+                    del pool[:k]
+                    lines += self._ready_many(rng, c, g, allow_await=True)
+                elif r < 0.47:
+                    k = rng.choice([1, 2, 3, 8, max(1, w // 4), max(1, w // 2)])
+                    ids = [rng.randrange(n) for _ in range(k)]
+                    lines.append("a %d %s:%s:%s" % (c, rng.choice(["wake", "wake", "gather"]), rng.choice("ddda"), self._ids(ids)))
+                elif r < 0.72:
+                    lines.append("a %d pause" % c)
+                elif r < 0.86:
+                    lines.append("a %d %s" % (c, rng.choice(["park", "park", "parkn"])))
+                elif r < 0.90:
+                    lines.append("a %d swap" % c)
+                else:
+                    lines.append("a %d end" % c)
+        lines += self._enter_main(rng)
+        for _ in range(rng.randint(1, 4)):
+            k = rng.choice([n, n, w // 2 + 1, 3])
+            ids = rng.sample(range(n), min(n, k))
+            if rng.random() < 0.4:
+                lines += ["m enter", "m wake:d:%s" % self._ids(ids), "m " + rng.choice(["leave", "leavex"])]
+            else:
+                lines.append("m %s:%s:%s" % (rng.choice(["wake", "wake", "gather"]), "d", self._ids(ids)))
+        return lines
+
+    def deep_chain(self, rng, w):
+        """deep nesting: coroutine i starts (nested start() on the C stack) / co_awaits / detaches coroutine i+1, after having made
+        side coroutines ready; on the way back everybody pauses / joins"""
+        d = min(w, 200)
+        lines = []
+        side = d + 1
+        # one dominant way of going one level down: start()/operator() = nested resume on the C stack (depth d), co_await async =
+        # chain of d awaiting coroutines (final_awaiter transfers back d times), detach = d queue hand-overs
+        main_how = rng.choice([["start", "start", "startc", "spawn"], ["start"], ["call"], ["call", "start"], ["detach:d", "detach:a"]])
+        for c in range(d):
+            if rng.random() < 0.5:
+                f = rng.choice([1, 2, 3])
+                lines += self._ready_many(rng, c, range(side, side + f))
+                side += f
+            how = rng.choice(main_how) if rng.random() < 0.9 else rng.choice(["start", "startc", "spawn", "call", "detach:d", "detach:a"])
+            if c + 1 < d:
+                lines.append("a %d %s:%d" % (c, how, c + 1))
+            t = rng.choice(["pause", "end", "park", "end"])
+            if t != "end":
+                lines.append("a %d %s" % (c, t))
+            if how in ("start", "startc") and c + 1 < d and rng.random() < 0.7:
+                lines.append("a %d join:%d" % (c, c + 1))
+            lines.append("a %d end" % c)
+        lines += self._enter_main(rng)
+        lines.append("m wake:d:%s" % self._ids(range(side)))
+        lines.append("m wake:d:%s" % self._ids(range(side)))
+        return lines
+
+    WIDE_FAMILIES = ["wide_fanout", "wide_fanout", "wide_tree", "wide_cycles", "wide_ring", "wide_random", "deep_chain"]
+
+    def gen_wide(self, rng, tier):
+        """every family at every width of the tier's list (the order of families and widths is fixed, the programs are random)"""
+        cases = []
+        widths = list(self.WIDTHS_QUICK)
+        reps = 1
+        if tier != "quick":
+            widths += self.WIDTHS_MORE + [1023, 1025]
+            reps = 8
+        for _ in range(reps):
+            for i, w in enumerate(widths):
+                for fam in self.WIDE_FAMILIES:
+                    if tier != "quick" and w > 600 and fam in ("wide_random",) and rng.random() < 0.5:
+                        continue
+                    via = rng.choice(["promise", "promise", "promise", "mutex", "queue"])
+                    body = getattr(self, fam)(rng, w)
+                    cases.append({"id": 0, "lines": ["case 0 exec %s" % via] + body + ["end"], "family": fam, "width": w})
+        if tier == "quick":
+            # a few really wide ones
+            for w, fam in ((257, "wide_fanout"), (255, "wide_tree"), (258, "wide_cycles"), (256, "wide_ring"), (200, "deep_chain")):
+                cases.append({"id": 0, "lines": ["case 0 exec promise"] + getattr(self, fam)(rng, w) + ["end"], "family": fam, "width": w})
+        return cases
+
+    def add_own_handle(self, rng, case):
+        """`co_await` of a suspend point that holds the awaiting coroutine's own handle (`sp << co_await self()`): awaited wakes of
+        the program get the own handle at a random position (first / middle / LAST), some dropped wakes become such awaits, and a
+        coroutine that parks later is a frequent victim (a stale queue entry would resume it while it is suspended)"""
+        lines = case["lines"]
+        done = 0
+        # a generator body that is read synchronously from inside coroutine mode must not suspend on anything but co_yield
+        # (assumption of the suite: next_sync() blocks its thread): bodies of generators keep their acts
+        gens = {l.split(":")[-1] for l in lines if "gnext:" in l}
+        for i, l in enumerate(lines):
+            w = l.split()
+            if len(w) != 3 or w[0] != "a" or w[1] in gens:
+                continue
+            k = w[2].split(":")
+            if k[0] in ("wake", "detach") and len(k) == 3 and k[1] in ("a", "d") and rng.random() < (0.6 if k[1] == "a" else 0.15):
+                ids = k[2].split(",")
+                cut = rng.choice([0, len(ids), len(ids), rng.randint(0, len(ids))])
+                lines[i] = "a %s awaits:%s:%s" % (w[1], ",".join(ids[:cut]), ",".join(ids[cut:]))
+                done += 1
+        return done
+
+    def gen_own_handle_templates(self, rng, n):
+        """small programs around the own handle: k coroutines park; the driver makes some of them ready, adds its own handle and
+        awaits, then suspends on something else (park / pause / join) while the others run"""
+        cases = []
+        for _ in range(n):
+            via = rng.choice(["promise", "promise", "mutex", "queue"])
+            k = rng.randint(1, 6)
+            lines = ["case 0 exec %s" % via]
+            for c in range(1, k + 1):
+                lines.append("a %d %s" % (c, rng.choice(["park", "park", "pause", "parkn"])))
+                if rng.random() < 0.3:
+                    lines.append("a %d wake:d:0" % c)
+                lines.append("a %d %s" % (c, rng.choice(["end", "pause", "park"])))
+            ids = list(range(1, k + 1)) + ([k + 1] if rng.random() < 0.5 else [])
+            rng.shuffle(ids)
+            for _ in range(rng.randint(1, 3)):
+                sub = rng.sample(ids, rng.randint(0, len(ids)))
+                cut = rng.choice([0, len(sub), len(sub), rng.randint(0, len(sub))])
+                if rng.random() < 0.3:
+                    lines.append("a 0 detach:d:%d" % rng.choice(ids))
+                lines.append("a 0 awaits:%s:%s" % (self._ids(sub[:cut]), self._ids(sub[cut:])))
+                lines.append("a 0 %s" % rng.choice(["park", "park", "pause", "parkn", "swap"]))
+            lines.append("a 0 end")
+            lines.append("m wake:d:%s" % self._ids(range(1, k + 1)))
+            lines += self._enter_main(rng)
+            for _ in range(rng.randint(1, 3)):
+                lines.append("m wake:d:%s" % self._ids(rng.sample(range(k + 2), rng.randint(1, k + 1))))
+            lines.append("end")
+            cases.append({"id": 0, "lines": lines})
+        return cases
+
     def gen_cases(self, rng, tier):
         n = 6000 if tier == "quick" else 200000
-        return [self.gen_template(rng) if rng.random() < 0.12 else self.gen_case(rng, tier) for _ in range(n)]
+        cases = [self.gen_template(rng) if rng.random() < 0.12 else self.gen_case(rng, tier) for _ in range(n)]
+        wide = self.gen_wide(rng, tier)
+        # own handle inside an awaited suspend point: in a part of the programs above (a second PRNG stream: the programs
+        # themselves stay what they were) and in small dedicated programs
+        import random as _random
+        r2 = _random.Random(rng.getrandbits(64))
+        for c in cases:
+            if r2.random() < 0.08:
+                self.add_own_handle(r2, c)
+        for c in wide:
+            if r2.random() < 0.25:
+                self.add_own_handle(r2, c)
+        return cases + wide + self.gen_own_handle_templates(r2, 150 if tier == "quick" else 5000)
 
     # ---- evaluation -----------------------------------------------------------------------------------
     def oracle(self, case, out):
@@ -706,8 +1032,18 @@ class ExecSuite(Suite):
     def stats(self, cases, outs):
         acts, shapes, vias = {}, {}, {}
         ncoro, nevents, maxdepth, queued, nested, blocks, jobs, gacc = [], 0, 0, 0, 0, 0, 0, 0
+        fams, widest, widest_draining, widest_sp = {}, {}, {}, {}
+        selfaw = 0
+
+        def bucket(x):
+            for lim in (4, 8, 16, 32, 64, 128, 256, 512, 1024):
+                if x <= lim:
+                    return "<=%d" % lim
+            return ">1024"
         for c in cases:
             hdr = c["lines"][0].split()
+            if "family" in c:
+                fams[c["family"]] = fams.get(c["family"], 0) + 1
             vias[hdr[3] if len(hdr) > 3 else "promise"] = vias.get(hdr[3] if len(hdr) > 3 else "promise", 0) + 1
             ids = set()
             for l in c["lines"][1:-1]:
@@ -732,13 +1068,25 @@ class ExecSuite(Suite):
                 nested += t.nested
                 jobs += t.job_runs
                 gacc += t.gen_accesses
+                for dct, v in ((widest, t.maxq), (widest_draining, t.maxq_draining), (widest_sp, t.maxsp)):
+                    dct[bucket(v)] = dct.get(bucket(v), 0) + 1
+                selfaw += t.selfawaits
             except Exception:
                 pass
         hist = {}
         for x in ncoro:
+            x = x if x <= 16 else bucket(x)
             hist[x] = hist.get(x, 0) + 1
+
+        def ordered(dct):
+            return {k: dct[k] for k in sorted(dct, key=lambda b: (b[0] == ">", int(b.lstrip("<=>"))))}
         return {"acts": dict(sorted(acts.items())), "wake_sources": vias,
-                "coroutines_per_program": {str(k): v for k, v in sorted(hist.items())},
+                "coroutines_per_program": {str(k): v for k, v in sorted(hist.items(), key=lambda kv: (isinstance(kv[0], str), kv[0] if isinstance(kv[0], int) else (kv[0][0] == ">", int(kv[0].lstrip("<=>")))))},
+                "awaits_of_a_suspend_point_holding_the_own_handle_executed": selfaw,
+                "wide_deep_families": dict(sorted(fams.items())),
+                "programs_by_most_coroutines_ready_at_once": ordered(widest),
+                "programs_by_most_ready_at_once_while_the_queue_is_being_drained": ordered(widest_draining),
+                "programs_by_most_handles_in_one_suspend_point": ordered(widest_sp),
                 "acts_executed": nevents, "resumptions_from_ready_queue": queued, "nested_starts_in_coroutine_mode": nested,
                 "install_blocks_entered": blocks, "max_nesting_depth": maxdepth,
                 "jobs_run_by_other_threads": jobs,
@@ -755,11 +1103,13 @@ class C05(Spec):
     technique = ("Lean 4 invariant proofs over an executable model of the per-thread executor (induction over all act lists = all "
                  "programs) + differential correspondence of the model with the real headers on generated scripted-coroutine programs")
     level_text = ("Lean 4 theorems over an open executable model of coro_queue/suspend_point/async scheduling on one thread: one step "
-                  "= one act (wake discard/await, park, pause, detach, start, co_await async, future await, co_return, "
+                  "= one act (wake discard/await, await of a suspend point holding the own handle, park, pause, detach, start, co_await async, future await, co_return, "
                   "install_queue_and_call enter/leave, parallel()/parallel_resume()/thread-pool hand-over to another thread and the "
                   "job that thread runs, synchronous/future/callback access to a generator and its co_yield) by whoever runs; no-preempt, FIFO (enq = deq ++ ready), exactly-once, pause "
                   "round-robin, no re-entry, full drain proved for every act list, i.e. every program, any number of coroutines; the "
-                  "model is tied to the headers by running 6k/200k generated programs through real cocls::async coroutines and the "
+                  "model is tied to the headers by running 6k/200k generated programs (including wide/deep families: tens to a thousand "
+                  "coroutines ready at the same time, fan-out while the queue is drained, widths around powers of two, fill/drain "
+                  "cycles, deep start()/co_await chains) through real cocls::async coroutines and the "
                   "model and diffing the complete event traces; a trace oracle evaluates the statement on the implementation's trace")
     level_note = ("trusted: Lean kernel (axioms propext/Classical.choice/Quot.sound at most), the hand-written model "
                   "lean/CoclsModel/Exec.lean, the differential harness (sampling), the C++ compiler's coroutine lowering, the "
@@ -778,7 +1128,9 @@ class C05(Spec):
                    "a generator that is read synchronously from inside coroutine mode (by a coroutine, or by ordinary code inside an "
                    "install_queue_and_call block) suspends on nothing but co_yield: next_sync() blocks its thread until the body "
                    "yields (generated programs respect this; the model itself is total)",
-                   "co_await of a suspend point that contains the awaiting coroutine's own handle is outside the quantifier"]
+                   "the own handle (co_await self()) is put into a suspend point only to co_await that suspend point (act `awaits`); "
+                   "dropping or handing over a suspend point that holds the handle of the coroutine that is running is outside the "
+                   "quantifier (it would resume a running coroutine)"]
 
     def suites(self):
         return [ExecSuite()]
